@@ -239,14 +239,14 @@ func resTag(r Res) string {
 
 func paramGoType(p Param) reflect.Type {
 	if p.K.Group != "" {
-		return reflect.SliceOf(typeTab[p.K.T])
+		return sliceTypeOf(p.K.T, p.Slice)
 	}
 	return typeTab[p.K.T]
 }
 
 func resGoType(r Res) reflect.Type {
 	if r.Flatten || r.Whole {
-		return reflect.SliceOf(typeTab[r.K.T])
+		return sliceTypeOf(r.K.T, r.Slice)
 	}
 	return typeTab[r.K.T]
 }
@@ -493,7 +493,7 @@ func (w *World) body(m *mat, args []reflect.Value) []reflect.Value {
 	for i, r := range f.Results {
 		var v reflect.Value
 		if r.Flatten || r.Whole {
-			v = reflect.MakeSlice(reflect.SliceOf(typeTab[r.K.T]), 0, r.N)
+			v = reflect.MakeSlice(sliceTypeOf(r.K.T, r.Slice), 0, r.N)
 			rec.Toks[i] = []*Tok{}
 			for e := 0; e < r.N; e++ {
 				tk := &Tok{f.ID, exec, i, e, failed}
